@@ -827,15 +827,33 @@ func (w *World) touch(s *Sub, lo, hi time.Time) { s.Activity = Iv{lo, hi} }
 
 // Pull issues a unary Pull (return_immediately) and checks it.
 func (w *World) Pull(name string, max int) []*pubsubpb.ReceivedMessage {
+	return w.pull(name, max, true)
+}
+
+// PullWait issues a unary Pull that waits (up to the server's 59 s, in virtual
+// time) until something is deliverable.
+func (w *World) PullWait(name string, max int) []*pubsubpb.ReceivedMessage {
+	return w.pull(name, max, false)
+}
+
+func (w *World) pull(name string, max int, immediately bool) []*pubsubpb.ReceivedMessage {
 	w.slot()
 	lo := w.now()
-	resp, err := w.E.Sub.Pull(w.Ctx, &pubsubpb.PullRequest{Subscription: name, MaxMessages: int32(max), ReturnImmediately: true})
+	resp, err := w.E.Sub.Pull(w.Ctx, &pubsubpb.PullRequest{Subscription: name, MaxMessages: int32(max), ReturnImmediately: immediately})
 	hi := w.now()
+	if !immediately {
+		w.stat("waiting_pulls", 1)
+		w.stat("virtual_ns", int64(hi.Sub(lo)))
+	}
 	n := 0
 	if resp != nil {
 		n = len(resp.ReceivedMessages)
 	}
-	w.rec("pull", fmt.Sprintf("%s max=%d", name, max), fmt.Sprintf("%s n=%d", code(err), n))
+	opName := "pull"
+	if !immediately {
+		opName = "pull-wait"
+	}
+	w.rec(opName, fmt.Sprintf("%s max=%d", name, max), fmt.Sprintf("%s n=%d", code(err), n))
 	if resp != nil {
 		var obs []string
 		for _, rm := range resp.ReceivedMessages {
